@@ -23,7 +23,7 @@
    open leaf is a potential match: needs `wf_tree` subtrees only contain labels reachable from their
    root, with reachb_complete) and consecutive/level/count; with match expressions additionally a
    completeness lemma for can_extend.  That fragment is carried by the correspondence + search only. *)
-From ISLA Require Import Eval3 EvalFacts GrammarFacts FuzzFacts Eval3Facts.
+From ISLA Require Import Eval3 EvalFacts GrammarFacts FuzzFacts Eval3Facts Eval3Compl Eval3Stable.
 From Coq Require Import ZArith.
 
 (* ---- refutations of the full statement ---- *)
@@ -155,3 +155,126 @@ Print Assumptions C06_tv_any_mono.
 Theorem C06_tv_not_mono : forall x y, tv_le x y -> tv_le (tv_not x) (tv_not y).
 Proof. exact tv_not_mono. Qed.
 Print Assumptions C06_tv_not_mono.
+
+(* ==================================================================== *)
+(* PROOF EXTENSION: formulas WITH tree quantifiers (Logic/Eval3Compl.v, Logic/Eval3Stable.v)  *)
+(* ==================================================================== *)
+(* ---- stability of definite verdicts, at the level of evaluate(): formulas with tree quantifiers
+        (qfrag: no match expression, no numeric quantifier, no semantic predicate; structural
+        predicates before/after/inside/same_position/different_position/direct_child/level; SMT atoms
+        of the family atom3), quantified types are nonterminals, outside K_selfrec_open
+        (K_nth_open and K_count_insert are excluded by the fragment: theorems below).
+        Remaining premise: the evaluation on the completion returns (does not raise) — the model
+        short-cuts ill-scoped bodies under UNKNOWN on t, so this cannot be dropped without a
+        well-scopedness premise.  `_partial`: the full statement verdict_stable_stmt is refuted. ---- *)
+Theorem C06_verdict_stable_quant_partial : forall g t t' cst f v v',
+  compl g t t' -> is_openT t' = false -> uniq_ids t' -> reach_closedb g = true ->
+  qfrag atom3 f = true -> forallb is_nt (qtypes atom3 f) = true -> K_selfrec_open atom3 g t f = false ->
+  m3_evaluate g t cst f = Ok v -> v <> UU -> m3_evaluate g t' cst f = Ok v' -> v' = v.
+Proof. exact verdict_stable_quant. Qed.
+Print Assumptions C06_verdict_stable_quant_partial.
+
+(* the same in the information order (UU below TT and FF), without `v <> UU` *)
+Theorem C06_verdict_mono_quant_partial : forall g t t' cst f v v',
+  compl g t t' -> is_openT t' = false -> uniq_ids t' -> reach_closedb g = true ->
+  qfrag atom3 f = true -> forallb is_nt (qtypes atom3 f) = true -> K_selfrec_open atom3 g t f = false ->
+  m3_evaluate g t cst f = Ok v -> m3_evaluate g t' cst f = Ok v' -> tv_le v v'.
+Proof. exact verdict_mono_quant. Qed.
+Print Assumptions C06_verdict_mono_quant_partial.
+
+Example C06_verdict_stable_quant_nonvacuous :
+  (compl NTH_g NTH_t NTH_t' /\ is_openT NTH_t' = false /\ uniq_ids NTH_t' /\ reach_closedb NTH_g = true /\
+   qfrag atom3 QX_f1 = true /\ forallb is_nt (qtypes atom3 QX_f1) = true /\
+   K_selfrec_open atom3 NTH_g NTH_t QX_f1 = false /\ is_openT NTH_t = true /\
+   m3_evaluate NTH_g NTH_t W_cst3 QX_f1 = Ok TT /\ m3_evaluate NTH_g NTH_t' W_cst3 QX_f1 = Ok TT) /\
+  (compl NTH_g QX_t NTH_t' /\
+   qfrag atom3 QX_f2 = true /\ forallb is_nt (qtypes atom3 QX_f2) = true /\
+   K_selfrec_open atom3 NTH_g QX_t QX_f2 = false /\ is_openT QX_t = true /\
+   m3_evaluate NTH_g QX_t W_cst3 QX_f2 = Ok TT /\ m3_evaluate NTH_g NTH_t' W_cst3 QX_f2 = Ok TT).
+Proof. exact verdict_stable_quant_example. Qed.
+Print Assumptions C06_verdict_stable_quant_nonvacuous.
+
+(* the fragment excludes the two other recorded classes *)
+Theorem C06_qfrag_not_nth : forall A t f, qfrag A f = true -> K_nth_open A t f = false.
+Proof. exact qfrag_not_nth. Qed.
+Print Assumptions C06_qfrag_not_nth.
+
+Theorem C06_qfrag_not_count_insert : forall A g t f, qfrag A f = true -> K_count_insert A g t f = false.
+Proof. exact qfrag_not_count_insert. Qed.
+Print Assumptions C06_qfrag_not_count_insert.
+
+(* ---- the generic induction: abstract SMT atoms, might-match test of the model on t, ANY test on t'
+        (t' is closed, it is never consulted); formulas related by frel (same shape; tree arguments
+        and in-trees agree on their ids; atoms related by arel); assignments related by asg_rel (same
+        variables and paths, every entry a node of its own reference tree).
+        The ONLY premise about atoms: one SMT atom is monotone under related assignments. ---- *)
+Theorem C06_eval_mono_generic :
+  forall (A : Type) (afree : A -> list var) (aopen : A -> bool) (aeval : A -> asg -> res TV)
+         (reach' : str -> str -> bool) (count_open : tree -> str -> Z -> res TV)
+         (qmm' : var -> path -> option mexpr -> asg -> path -> bool)
+         (arel : A -> A -> Prop) (g : grammar) (t t' : tree),
+    compl g t t' -> is_openT t' = false -> uniq_ids t' -> reach_closedb g = true ->
+    (forall (x x' : A) (a a' : asg) (r r' : TV),
+       arel x x' -> asg_rel t t' a a' ->
+       eval_legacy A afree aopen aeval (m3_qmm g t) reach' count_open t (FSmt x) a = Ok r ->
+       eval_legacy A afree aopen aeval qmm' reach' count_open t' (FSmt x') a' = Ok r' -> tv_le r r') ->
+    forall f f' : formula A, frel A arel f f' ->
+    forall (a a' : asg) (r r' : TV),
+      asg_rel t t' a a' -> Forall (qt_ok g t) (qtypes A f) ->
+      eval_legacy A afree aopen aeval (m3_qmm g t) reach' count_open t f a = Ok r ->
+      eval_legacy A afree aopen aeval qmm' reach' count_open t' f' a' = Ok r' -> tv_le r r'.
+Proof. exact eval_mono. Qed.
+Print Assumptions C06_eval_mono_generic.
+
+(* ---- that premise is a THEOREM for the atom family atom3 (soundness of the atom evaluator under
+        completion): a definite atom verdict is computed from closed assigned trees, which a
+        completion leaves unchanged; an atom carrying an open substitution is UNKNOWN ---- *)
+Theorem C06_atom3_mono :
+  forall (g : grammar) (t t' : tree), compl g t t' ->
+  forall (qmm qmm' : var -> path -> option mexpr -> asg -> path -> bool)
+         (reach' : str -> str -> bool) (count_open : tree -> str -> Z -> res TV)
+         (x x' : atom3) (a a' : asg) (r r' : TV),
+    arel3 t t' x x' -> asg_rel t t' a a' ->
+    eval_legacy atom3 afree3 aopen3 aeval3 qmm reach' count_open t (FSmt x) a = Ok r ->
+    eval_legacy atom3 afree3 aopen3 aeval3 qmm' reach' count_open t' (FSmt x') a' = Ok r' -> tv_le r r'.
+Proof. exact atom3_mono. Qed.
+Print Assumptions C06_atom3_mono.
+
+(* ---- key lemmas ---- *)
+(* a node of t' that is not a node of t and carries a nonterminal label lies strictly below an open
+   leaf of t whose label reaches that nonterminal (reachb: the model's computed reachability) *)
+Theorem C06_compl_new_label : forall g t t' p s',
+  reach_closedb g = true -> compl g t t' -> subtree t' p = Some s' -> subtree t p = None ->
+  is_nt (lbl s') = true ->
+  exists q r n, p = q ++ r /\ r <> [] /\ subtree t q = Some n /\ opn n = true /\ kids n = [] /\
+                reachb g (lbl n) (lbl s') = true.
+Proof. exact compl_new_label. Qed.
+Print Assumptions C06_compl_new_label.
+
+(* labels inside a valid derivation tree are grammar-reachable from its root *)
+Theorem C06_wf_desc_reach : forall g r w s',
+  wf_tree g w -> subtree w r = Some s' -> r <> [] -> is_nt (lbl s') = true -> reach g (lbl w) (lbl s').
+Proof. exact wf_desc_reach. Qed.
+Print Assumptions C06_wf_desc_reach.
+
+(* without a potential match (and outside K_selfrec_open: qt_ok) the quantifier domain has the same
+   positions in t and in t' *)
+Theorem C06_quant_domain_stable : forall g t t' v ip si a,
+  compl g t t' -> reach_closedb g = true -> subtree t ip = Some si -> qt_ok g t (vtype v) ->
+  existsb (fun ps => m3_qmm g t v ip None a (fst ps)) (open_leaves t) = false ->
+  map fst (filter (fun ps : path * tree => str_eqb (lbl (snd ps)) (vtype v)) (trie_items t' ip)) =
+  map fst (filter (fun ps : path * tree => str_eqb (lbl (snd ps)) (vtype v)) (trie_items t ip)).
+Proof. exact quant_domain_stable. Qed.
+Print Assumptions C06_quant_domain_stable.
+
+(* level only reads labels on the root paths of its two argument nodes: unchanged by completion *)
+Theorem C06_level_check_compl : forall g t t', compl g t t' -> is_openT t' = false ->
+  forall o nt p1 p2 s1 s2, subtree t p1 = Some s1 -> subtree t p2 = Some s2 ->
+    level_check t o nt p1 p2 = level_check t' o nt p1 p2.
+Proof. exact level_check_compl. Qed.
+Print Assumptions C06_level_check_compl.
+
+(* a closed tree is its only completion *)
+Theorem C06_compl_closed_eq : forall g s s', compl g s s' -> is_openT s = false -> s' = s.
+Proof. exact compl_closed_eq. Qed.
+Print Assumptions C06_compl_closed_eq.
